@@ -40,6 +40,9 @@ class V(int):
   def __getitem__(self, k):
     return V(int(self))
 
+  def __setitem__(self, k, v):
+    pass
+
   def __iter__(self):
     yield V(int(self))
 
@@ -118,7 +121,7 @@ class ErrMaker:
 
 def make_env() -> Tuple[Dict[str, Any], Recorder]:
   rec = Recorder()
-  return {'S': rec, 'W': Once(rec), 'D': Deleter(rec), 'Q': list(range(10)), 'A': 100,
+  return {'S': rec, 'W': Once(rec), 'D': Deleter(rec), 'Q': list(range(10)), 'A': 100, 'NS': types.SimpleNamespace(),
           'E': ErrMaker(rec, XErr, 'E'), 'F': ErrMaker(rec, YErr, 'F')}, rec
 
 
@@ -158,6 +161,8 @@ def _norm(v, depth=0):
     return ['function', v.__name__]
   if isinstance(v, type):
     return ['class', v.__name__]
+  if isinstance(v, types.SimpleNamespace):
+    return ['harness', 'NS']
   if isinstance(v, types.ModuleType):
     return ['module', v.__name__]
   if isinstance(v, BaseException):
@@ -165,6 +170,11 @@ def _norm(v, depth=0):
   if isinstance(v, (Recorder, Once, Deleter, ErrMaker)):
     return ['harness', type(v).__name__]
   return ['object', type(v).__name__]
+
+
+def harness_state(env) -> Dict[str, Any]:
+  """Objects the programs can store INTO (subscript / attribute targets): their content is compared too."""
+  return {'Q': _norm(env['Q']), 'NS': _norm(dict(vars(env['NS'])))}
 
 
 # ---------------------------------------------------------------------------------------------
@@ -190,8 +200,12 @@ def _ind(lines):
 STMT_SLOTS = {'body', 'orelse', 'handler', 'final'}
 
 
-def render_node(c: Ctx, kind: str, child: Optional[Tuple[str, Any]]):
-  """Returns ('S', lines) or ('E', text).  child = (slot, rendered child) or None."""
+STORE_SLOTS = {'store', 'chain_store', 'asname'}
+
+
+def render_node(c: Ctx, kind: str, child: Optional[Tuple[str, Any]], store: bool = False):
+  """Returns ('S', lines) or ('E', text).  child = (slot, rendered child) or None; store: the node is an
+  assignment target."""
   cslot = child[0] if child else None
 
   def e(slot, optional=False):
@@ -211,11 +225,12 @@ def render_node(c: Ctx, kind: str, child: Optional[Tuple[str, Any]]):
 
   k = kind
   if k == 'Assign':
-    return 'S', [f'{c.name("a")} = {e("value")}']
+    ch = e('chain_store', True)
+    return 'S', [f'{e("store", True) or c.name("a")} = ' + (f'{ch} = ' if ch else '') + e('value')]
   if k == 'AugAssign':
-    return 'S', [f'A += {e("value")}']
+    return 'S', [f'{e("store", True) or "A"} += {e("value")}']
   if k == 'AnnAssign':
-    return 'S', [f'{c.name("b")}: {e("annotation")} = {e("value")}']
+    return 'S', [f'{e("store", True) or c.name("b")}: {e("annotation")} = {e("value")}']
   if k == 'If':
     return 'S', [f'if {e("test")}:'] + _ind(b('body')) + ['else:'] + _ind(b('orelse'))
   if k == 'Match':
@@ -223,7 +238,8 @@ def render_node(c: Ctx, kind: str, child: Optional[Tuple[str, Any]]):
     return 'S', [f'match {e("subject")}:', '  case _' + (f' if {g}' if g else '') + ':'] + _ind(_ind(b('body')))
   if k == 'For':
     o = b('orelse', True)
-    return 'S', [f'for {c.name("i")} in {e("iter")}:'] + _ind(b('body')) + ((['else:'] + _ind(o)) if o else [])
+    return 'S', ([f'for {e("store", True) or c.name("i")} in {e("iter")}:'] + _ind(b('body')) +
+                 ((['else:'] + _ind(o)) if o else []))
   if k == 'While':
     t = e('test', True)
     w = f'W[{c.n + 1000}]'
@@ -258,7 +274,8 @@ def render_node(c: Ctx, kind: str, child: Optional[Tuple[str, Any]]):
   if k == 'ImportFrom':
     return 'S', ['from math import pi']
   if k == 'With':
-    return 'S', [f'with [{e("item")}][0]:'] + _ind(b('body'))
+    an = e('asname', True)
+    return 'S', [f'with [{e("item")}][0]' + (f' as {an}' if an else '') + ':'] + _ind(b('body'))
   if k == 'AsyncWith':
     return 'S', [f'async with [{e("item")}][0]:'] + _ind(b('body'))
   if k == 'Delete':
@@ -311,8 +328,14 @@ def render_node(c: Ctx, kind: str, child: Optional[Tuple[str, Any]]):
   if k == 'Compare':
     return 'E', f'({e("left")} < {e("right")})'
   if k == 'Attribute':
+    if store:       # a target: an attribute of the namespace object (or of the child's value)
+      v = e('value', True)
+      return 'E', (f'({v}).real' if v else f'NS.{c.name("f")}')
     return 'E', f'({e("value")}).real'
   if k == 'Subscript':
+    if store:       # a target: an element of the list Q (or of the child's value)
+      v, ix = e('value', True), e('index', True)
+      return 'E', (f'({v})[{c.s()}]' if v else f'Q[{ix}]' if ix else 'Q[1]')
     return 'E', f'({e("value")})[{e("index")}]'
   if k == 'Slice':
     lo, up, st = e('lower', True), e('upper', True), e('step', True)
@@ -334,7 +357,7 @@ def render_node(c: Ctx, kind: str, child: Optional[Tuple[str, Any]]):
   if k == 'Constant':
     return 'E', '7'
   if k == 'Name':
-    return 'E', 'A'
+    return 'E', (c.name('t') if store else 'A')
   raise KeyError(kind)
 
 
@@ -343,9 +366,11 @@ def render(chain: List[str]) -> str:
   c = Ctx()
   kinds = chain[0::2]
   slots = chain[1::2]
-  node = render_node(c, kinds[-1], None)
+  def is_store(i):
+    return i > 0 and slots[i - 1] in STORE_SLOTS
+  node = render_node(c, kinds[-1], None, is_store(len(kinds) - 1))
   for i in range(len(kinds) - 2, -1, -1):
-    node = render_node(c, kinds[i], (slots[i], node))
+    node = render_node(c, kinds[i], (slots[i], node), is_store(i))
   t, x = node
   lines = x if t == 'S' else [x]
   return '\n'.join(['S[0]'] + lines)
@@ -426,6 +451,7 @@ def plain_run(src: str) -> Dict[str, Any]:
     res['error'] = (type(ex).__name__, _code_lines(sys.exc_info()[2], '<plain>'), _ADDR.sub(' at 0x?', str(ex)))
   res['stdout'] = out.getvalue()
   res['log'] = list(rec.log)
+  res['state'] = harness_state(env)
   res['vars'] = {k: _norm(v) for k, v in env.items()
                  if k != '__builtins__' and (k not in orig or v is not orig[k])}
   return res
@@ -479,6 +505,7 @@ def pg_run(src: str, mask: int, mode: str, api: str = 'evaluate') -> Dict[str, A
     res['outcome'] = 'crash'
     res['error'] = (type(ex).__name__, str(ex)[:120])
   res['log'] = list(rec.log)
+  res['state'] = harness_state(env)
   if pg.coding.get_permission() is not None:
     res['leaked_scope'] = int(pg.coding.get_permission().value)
   return res
@@ -527,6 +554,8 @@ def compare(ref: Dict[str, Any], got: Dict[str, Any], code: int) -> Optional[Tup
     return ('faithful', 'raised', None, got['error'])
   if got['stdout'] != ref['stdout']:
     return ('faithful', 'stdout', ref['stdout'], got['stdout'])
+  if got['state'] != ref['state']:
+    return ('faithful', 'stored-into objects', ref['state'], got['state'])
   if got['vars'] != ref['vars']:
     return ('faithful', 'intermediates', ref['vars'], got['vars'])
   if ref['result'] is not _NODEF and got['result'] != ref['result']:
@@ -592,6 +621,7 @@ def run_history(src: str, mask: int, hist: List[int]) -> Dict[str, Any]:
     while open_cms:
       open_cms.pop().__exit__(None, None, None)
   res['log'] = list(rec.log)
+  res['state'] = harness_state(env)
   if pg.coding.get_permission() is not None:
     res['leaked_scope'] = int(pg.coding.get_permission().value)
   return res
